@@ -150,3 +150,46 @@ func VerifH_C08_mutators() {
 		verifAssert(r.IsUndefined(), "15.4.4: return value is undefined (empty array or hole)")
 	}
 }
+
+// C08-H8: assigning the length (15.4.5.1 step 3): any double - and undefined, a
+// string, an object - that is not an integer in [0, 2^32) is a RangeError and
+// changes nothing; otherwise the array is truncated / extended to exactly that length.
+func VerifH_C08_length_assignment() {
+	vm := New()
+	x := verifNondetFloat64()
+	vm.Set("x", x)
+	kind := verifChoose(4)
+	rhs := "x"
+	valid := x >= 0 && x <= 4294967295 && x == refToInteger(x)
+	switch kind {
+	case 1:
+		rhs, valid = "undefined", false
+	case 2:
+		rhs, valid = "'abc'", false
+	case 3:
+		rhs, valid = "{}", false
+	}
+	if kind == 0 && valid {
+		verifAssume(x < 32) // keep the accepted lengths small
+	}
+	v, ok := verifRun(vm, "var a = [1, 2, 3], r = 'ok'; try { a.length = "+rhs+" } catch (e) { r = e instanceof RangeError ? 'RangeError' : 'other' } [r, a.length, 2 in a, a[0]].join()")
+	verifCover("reached")
+	verifAssert(ok, "the script completes")
+	if !ok {
+		return
+	}
+	if !valid {
+		verifAssert(v.String() == "RangeError,3,true,1", "15.4.5.1: an invalid length is a RangeError and the array is unchanged")
+		return
+	}
+	n := int64(x)
+	has2 := "false"
+	if n >= 3 {
+		has2 = "true"
+	}
+	first := "1"
+	if n == 0 {
+		first = ""
+	}
+	verifAssert(v.String() == "ok,"+verifItoa(n)+","+has2+","+first, "15.4.5.1: the array has exactly the assigned length; elements at or beyond it are gone")
+}
